@@ -81,10 +81,16 @@ func genProgram(rt *rapid.T, h *harness.H) (*ast.Program, *gen.ProgGen) {
 	return genProgramOpt(rt, h, false)
 }
 
+// progHook lets one property adjust the program generator (each check runs one property per process).
+var progHook func(*gen.ProgGen)
+
 func genProgramOpt(rt *rapid.T, h *harness.H, runtime bool) (*ast.Program, *gen.ProgGen) {
 	d := gen.D{T: rt}
 	g := gen.NewProgGen(d)
 	g.Recursive = true
+	if progHook != nil {
+		progHook(g)
+	}
 	if runtime {
 		g.PrintPct = 22
 	}
